@@ -291,6 +291,7 @@ def build_corpus(seed: int, n_templates: int, max_bytes: int) -> List[Dict[str, 
     docs.append(("blank-note", "Table w {\n  a int\n  Note: '   '\n}\n"))
     docs.append(("empty", ""))
     docs.append(("only-comment", "// nothing here\n"))
+    docs.append(("blank-lines", "\n\n  \n\t\n"))
     base = [d for d in docs if "~" not in d[0]]
     for name, text in base:
         vs = failing_variants(rng, name, text)
